@@ -239,7 +239,7 @@ func (g *Gen) structValue(root *gtext.T, depth int, key bool) *gtext.G {
 		case f.Req && f.T.IsPrim():
 			out.Items[i] = g.prim(f.T.Root(), key)
 		case f.Req:
-			if f.T.IsList() && r.Chance(1, 10) {
+			if f.T.IsList() && r.Chance(1, 4) {
 				continue // a nil slice is a valid required list
 			}
 			out.Items[i] = g.value(f.T, depth+1, key)
